@@ -98,7 +98,7 @@ Proof.
   - destruct Hp as [Ha Hb]. destruct oa as [a|]; [|congruence]. destruct ob as [b|]; [|congruence].
     cbn [arg]. apply (OP_concrete_is_op_generic AMul).
   - destruct oa as [a|]; [|congruence]. cbn [arg]. apply (OP_concrete_is_op_generic AMul).
-  - destruct oa as [a|]; [|congruence]. cbn [arg]. apply (OP_concrete_is_op_generic ADiv).
+  - reflexivity.
   - destruct oa as [a|]; [|congruence]. cbn [arg]. destruct nw as [kd|]; apply SET_is_Set.
 Qed.
 
